@@ -5,17 +5,19 @@ Model for C16 "copies, virtual entities and documents never share mutable state"
     | mutable container) and slots; a slot is an atom by value, an *owning* reference or a
     *navigation* reference (identity only: `entity.doc`, `_source_of_copy`, ...);
   * `observe h n r` is the value tree reachable from `r` through owning references, unfolded to depth
-    `n` (object graphs may be cyclic: `dxf._entity`), it does not contain addresses of owned objects;
+    `n` (object graphs may be cyclic: `dxf._entity`); it contains no addresses of owned objects;
   * `Write` is one mutation through a root `b`: follow a path of slot indices from `b`, then change the
     slots of the object found there (set / append / remove an atom, a navigation reference, a freshly
     allocated object, or a reference to something already reachable from `b`).  Immutable objects and
-    members of the `frozen` list (objects shared on purpose and immutable by convention) are never
-    written;
-  * `copyTree` models `CopyStrategy.copy` (src/ezdxf/entities/copy.py) + `DXFNamespace.copy` +
-    the per class `copy_data` recipe on the value tree of the source, `alloc` builds the result in the
-    heap from fresh objects only (except for parts the recipe aliases);
-  * `checkGraph` is the certificate checker run (by `decide +kernel`) on the object graphs extracted
-    from the real library (Gen/HeapGraphs.lean).
+    members of the `frozen` list (objects shared on purpose, immutable by convention) are never written;
+    `apply1` / `applyAll` are tied to Python object semantics by correspondence stream X1;
+  * `ATree`, `copyT`, `alloc`: the model of `CopyStrategy.copy` (src/ezdxf/entities/copy.py) with
+    `DXFNamespace.copy` / `reset_handles` (dxfns.py) and a per class `copy_data` recipe, tied to the code by
+    correspondence stream X2 (recipes parsed from the current source text);
+  * `Graph`, `checkGraph`: the certificate checker run by `decide +kernel` on the object graphs extracted
+    from the real library on every run (Gen/HeapGraphs.lean);
+  * `allowedFrozen`, `knownShared`, `allowedNav`, `aliasAllowed`, `shallowAllowed`: the explicit lists of
+    what may be shared, with reasons.
 
 Core Lean only.
 -/
@@ -485,4 +487,31 @@ def allowedNav : List (String × String) := [
   ("attr", "_source_block_reference")
 ]
 
+/-- the explicit Frozen list together with the known defects -/
+def tolerated : List Rule := allowedFrozen ++ knownShared
+
+/-! ### small instances used by the non-vacuity checks of Props/C16.lean -/
+
+/-- the heap of finding C16-1 in miniature: source `0` and copy `1` own the same mutable cell `2`
+    (as BODY and its copy own one `_temporary_transformation`) -/
+def aliasedHeap : Heap := [⟨.cell, [.own 2, .val 7]⟩, ⟨.cell, [.own 2, .val 7]⟩, ⟨.cell, [.val 0]⟩]
+
+/-- a separated pair: source `0` -> `2`, copy `1` -> `3`, both point to the frozen resource `4` -/
+def separatedGraph : Graph :=
+  { nodes := [(.cell, [2, 4]), (.cell, [3, 4]), (.cont, []), (.cont, []), (.cell, [])],
+    rootA := 0, rootB := 1, reachA := [0, 2, 4], reachB := [1, 3, 4],
+    frozen := [⟨4, some ("ImageDef", "Image", "_image_def"), none⟩] }
+
+/-! examples for the copy model: class 0 = an entity with the parts (deepcopy, alias, shallow, sub-entities),
+    class 1 = a sub-entity without parts -/
+def rcEx : Nat → List Policy := fun c => if c = 0 then [.deep, .alias, .shallow, .ents] else []
+def blEx : Nat → List ATree := fun _ => []
+def subEx (a : Nat) : ATree :=
+  .ent a 1 [.navr 9, .node (a + 1) .cell [.leaf 51, .leaf 52, .leaf 7], .leaf NONE, .leaf 33, .leaf NONE, .leaf NONE, .leaf NONE, .leaf NONE]
+def entEx : ATree :=
+  .ent 10 0 [.navr 9, .node 11 .cell [.leaf 41, .leaf 42, .leaf 5, .node 12 .cont [.leaf 1]],
+    .node 13 .cell [.ent 14 1 [.navr 9, .node 15 .cell [.leaf 43, .leaf 41], .leaf NONE, .leaf NONE, .leaf NONE, .leaf NONE, .leaf NONE, .leaf NONE]],
+    .node 16 .cell [.leaf 44], .leaf 3, .node 17 .cont [.leaf 2], .node 18 .cont [.leaf 3], .leaf NONE,
+    .node 19 .cont [.node 20 .cont [.leaf 4]], .node 21 .cont [.leaf 5], .node 22 .cont [.node 23 .cell [.leaf 6]],
+    .node 24 .cont [subEx 25, subEx 27]]
 end EzdxfVerif.Heap
